@@ -42,7 +42,36 @@ def confirm(wt, deliver):
     return facts
 
 
+def run_checks_scratch(patch):
+    """Same as run_checks but on a scratch copy of /repo's HEAD (VF_REPO); used when /repo must not be touched
+    (e.g. while another job reads it)."""
+    scratch = '/tmp/vf_seeded_repo_%d' % os.getpid()
+    shutil.rmtree(scratch, ignore_errors=True)
+    os.makedirs(scratch)
+    try:
+        sh('git -C /repo archive HEAD | tar -x -C %s' % scratch)
+        rc, out = sh(['git', 'apply', '--unsafe-paths', '--directory=' + scratch, patch], cwd='/')
+        if rc != 0:
+            rc, out = sh(['patch', '-p1', '-s', '-i', patch], cwd=scratch)
+            if rc != 0:
+                raise SystemExit('patch does not apply to scratch copy: ' + out)
+        t = time.time()
+        rc, out = sh([os.path.join(VERIF, 'check'), '--all'], cwd=VERIF, env=dict(os.environ, VF_REPO=scratch), timeout=6000)
+        res = {'output': out}
+        alarms = sorted(set(re.findall(r'^VIOLATION property=(C\d\d)', out, flags=re.M)))
+        nofail = sorted(set(re.findall(r'^VIOLATION property=(C\d\d).*no-failing-input-found', out, flags=re.M)))
+        inc = sorted(set(re.findall(r'^INCONCLUSIVE: property=(C\d\d)', out, flags=re.M)))
+        if 'INCONCLUSIVE: generator' in out:
+            inc = ['ALL(generator)']
+        res.update({'alarms': alarms, 'alarms_without_input': nofail, 'inconclusive': inc, 'wall_s': round(time.time() - t)})
+        return res
+    finally:
+        shutil.rmtree(scratch, ignore_errors=True)
+
+
 def run_checks(patch, props=None):
+    if os.environ.get('VF_SEEDED_SCRATCH'):
+        return run_checks_scratch(patch)
     rc, out = sh(['git', '-C', '/repo', 'status', '--porcelain'])
     if out.strip():
         raise SystemExit('/repo is not clean: ' + out)
